@@ -7,8 +7,9 @@ flags:
   inq       (T, v) is inside C02's quantifier: str-keyed mappings, |ints| < 2**63, valid-Unicode
             strings, finite floats, no bytes below the root.  Outside it only the agreement clause
             is required (all entry points must still do the same thing, usually raise the same way).
-  c01_safe  (T, v) is not in a region where C01 itself is known to fail on the pinned tree
-            (see C01_EXCLUSIONS); only then the round-trip clause is demanded.
+  c01_safe  (T, v) is not in a region where C01 itself is known to fail (see C01_EXCLUSIONS; currently always
+            True); only then the round-trip clause is demanded.
+  union     a union / optional / multi-valued literal is involved: round trip demanded where C01's statement holds.
   bytes_t   T is bytes-like (root).
 """
 from __future__ import annotations
@@ -19,15 +20,15 @@ import string
 PRELUDE = ("import collections, collections.abc, dataclasses, datetime, decimal, enum, fractions, pathlib, "
            "typing, uuid\n")
 
+# Regions where C01 itself fails and the round-trip clause is therefore not demanded.  On the tree this check is
+# meant for (/repo 590805a + proposed_fixes/C02-api-bytes-verbatim.diff) the former exclusions -- timedeltas outside
+# (0, 7 days), aware times with a non-UTC offset, enum/path text that serdes.load reads as JSON, sequences / named
+# tuples whose first element is a 2-element collection (DESIGN 9 #4 #5 #7 #12 #14) -- are repaired and are demanded
+# again; the generator still tags such values (`why`) so that the distribution shows they are exercised.
 C01_EXCLUSIONS = {
-    "timedelta": "timedelta that is zero, negative or >= 7 days (DESIGN 9 #4 #5: ISO duration writer)",
-    "time-offset": "aware time with a non-UTC offset (DESIGN 9 #7)",
-    "loadable-text": "enum value / path text that serdes.load reads as JSON or a Python literal (DESIGN 9 #14)",
-    "pair-first": "sequence / named tuple / set whose first element is a 2-element collection or 2-character "
-                  "string (DESIGN 9 #12: iteritems/itervalues take it for an iterable of pairs)",
-    "union": "union value whose wire form is accepted by an earlier member, or by another member's rules "
-             "(C08: members are tried in declared order) -- decided by running C01's own statement",
-    "float-int": "float field holding an integral value inside a union",
+    "union": "unions / optionals / multi-valued literals: the round trip is demanded only where C01's own statement "
+             "unmarshal(T, marshal(v, t=T)) == v holds for this (T, v) -- which member accepts a wire form is C08's "
+             "subject (declared order), and the two member orders of one union in one process are never mixed (C12)",
 }
 
 WORDS = ["abc", "x", "hello world", "Zed", "k_1", "qq-rr", "a/b", "sp ace", "tab\tbed", "unié", "中文",
@@ -50,7 +51,7 @@ class Gen:
 
     # ---- bookkeeping ----
     def unsafe(self, why):
-        self.safe = False
+        """tag a value from a formerly C01-failing region (no longer excluded from the round trip)"""
         self.why.add(why)
 
     def outq(self, why):
